@@ -49,6 +49,7 @@ func (l langModel) ids() []uint16 {
 
 type nameModel struct {
 	Mac, Win []langModel // distinct tags, sorted by tag
+	Crossing bool        // the last string stored ends beyond byte 65535 of the storage
 }
 
 func (m *nameModel) String() string {
@@ -229,6 +230,17 @@ func genNameModel(tt *tagTables) *rapid.Generator[*nameModel] {
 		if rapid.IntRange(0, 39).Draw(t, "allLangs") == 0 {
 			nMac, nWin = len(macTags), len(winTags)
 		}
+		// "crossing" class: the string storage of a name table may be longer
+		// than 64 KiB - offsets are 16 bits, so only the *start* of every
+		// string has to lie below 65536.  One Windows language, short strings,
+		// and as its highest name id one string that starts below 65536 and
+		// ends beyond (it is the last one stored)
+		crossing := rapid.IntRange(0, 11).Draw(t, "crossing64K") == 0
+		if crossing {
+			maxLen = 24
+			nWin = 1
+			nMac = rapid.IntRange(0, 2).Draw(t, "nMacCrossing")
+		}
 		if nMac+nWin == 0 {
 			nWin = 1
 		}
@@ -390,6 +402,24 @@ func genNameModel(tt *tagTables) *rapid.Generator[*nameModel] {
 		}
 		m.Mac = build(macPick, tt.mac, true)
 		m.Win = build(winPick, tt.win, false)
+		if crossing && len(m.Win) == 1 && storage < 65000 {
+			maxID := 0
+			for id := range m.Win[0].Names {
+				if int(id) > maxID {
+					maxID = int(id)
+				}
+			}
+			minUnits := (65536-storage)/2 + 1
+			if maxID < 65535 && minUnits <= 32767 {
+				units := rapid.IntRange(minUnits, 32767).Draw(t, "crossingUnits")
+				rr := make([]rune, units)
+				for i := range rr {
+					rr[i] = rune(0x4E00 + i%997) // not a string stored before
+				}
+				m.Win[0].Names[uint16(maxID+1)] = string(rr)
+				m.Crossing = true
+			}
+		}
 		return m
 	})
 }
@@ -772,6 +802,7 @@ func TestC14Name(t *testing.T) {
 		}
 		labels = append(labels, ifs(extra, "extra-name-ids", ""), ifs(nonBMP, "non-BMP", ""),
 			ifs(longStr, "string>10000-bytes", ""), ifs(dupLang, "tag-with-two-language-ids", ""))
+		labels = append(labels, ifs(m.Crossing, "storage-beyond-64KiB", ""))
 		stats.CaseIn("name", stats.Hash(m.String()), nt, func() string { return m.String() }, labels...)
 	})
 }
